@@ -3,6 +3,7 @@ import BqVerif.Proofs.CircInvB
 import BqVerif.Proofs.CircIter
 import BqVerif.Proofs.CircQudit
 import BqVerif.Proofs.CircViews
+import BqVerif.Proofs.CircKahn2
 /-! # C05 — all views of a Circuit stay mutually consistent after every edit
 
 The views (`next/prev/front/rear/first_on/last_on`, counters, iteration) are *functions of the
@@ -131,5 +132,42 @@ theorem C05_first_last_point (c : Circ) (hinv : c.Inv) (q : Nat) :
     c.lastPointOn q = (c.timelineIdx q).getLast?.map (fun x => (x.1, x.2.head)) ∧
     (c.timelineIdx q).map Prod.snd = c.timeline q :=
   ⟨firstPoint_eq c q, lastPointOn_eq c q, timelineIdx_ops c hinv q⟩
+
+/-- **The DAG iterator yields the row-major order.**  `iterKahn` transcribes
+`CircuitDagIterator`: Kahn's algorithm over the derived `next`/`prev` edges with the frontier kept
+as a heap of points and a table of per-node counts of already-emitted predecessors
+(`prev_binned_counts`); `iterCyc` is the order `(cycle, location[0])`.  Under the invariant the two
+coincide for EVERY circuit — so "iteration" is one well-defined order, and the differential's
+`kahn=same` flag is a theorem rather than an observation.  (Proof: the abstract loop on any
+finite DAG with upward edges and a sorted frontier emits the nodes in increasing order,
+`aLoop_correct`; the grid's points are strictly sorted under `Inv`, `next`/`prev` are mutually
+inverse, and `prev`'s length counts the predecessors.) -/
+theorem C05_iter_kahn_eq_rowmajor (c : Circ) (hinv : c.Inv) : c.iterKahn = c.iterCyc :=
+  iterKahn_eq_iterCyc c hinv
+
+/-- The abstract lemma behind it, for any DAG on points: nodes `pts` strictly sorted, successor
+lists duplicate-free, inside `pts` and strictly larger, `total` = number of predecessors; started
+from the sorted list of the nodes without predecessor with enough fuel, the counting loop with a
+sorted frontier outputs exactly `pts`. -/
+theorem C05_kahn_abstract (valid : Pt → Bool) (succ : Pt → List Pt) (total : Pt → Nat)
+    (pts front : List Pt) (fuel : Nat)
+    (hsort : pts.Pairwise ptLt) (hvalid : ∀ p ∈ pts, valid p = true)
+    (hnd : ∀ p ∈ pts, (succ p).Nodup)
+    (hsucc : ∀ p ∈ pts, ∀ x ∈ succ p, x ∈ pts ∧ ptLt p x)
+    (htot : ∀ x ∈ pts, total x = pts.countP (fun r => (succ r).contains x))
+    (hfn : front.Nodup) (hfm : ∀ x, x ∈ front ↔ x ∈ pts ∧ total x = 0)
+    (hfuel : pts.length ≤ fuel) :
+    aLoop valid succ total fuel ⟨front.foldr insertPt [], []⟩ = pts :=
+  aLoop_from_front valid succ total pts front fuel hsort hvalid hnd hsucc htot hfn hfm hfuel
+
+-- non-vacuity: a 3-qudit circuit where row-major and a naive FIFO Kahn order differ; and the
+-- hypothesis `Inv` is needed (two ops sharing `location[0]` in one cycle break the equality)
+example :
+    let c : Circ := ⟨[2, 2, 2], [[⟨1, [], [2], [2]⟩, ⟨1, [], [0], [2]⟩],
+      [⟨6, [], [1, 2], [2, 2]⟩, ⟨2, [], [0], [2]⟩], [⟨6, [], [0, 1], [2, 2]⟩]]⟩
+    c.invB = true ∧ c.iterKahn = c.iterCyc ∧ c.iterCyc.length = 5 := by decide
+example :
+    let c : Circ := ⟨[2], [[⟨1, [], [0], [2]⟩, ⟨2, [], [0], [2]⟩]]⟩
+    c.invB = false ∧ c.iterKahn ≠ c.iterCyc := by decide
 
 end BqVerif.C05
